@@ -3,7 +3,7 @@ CONSTANTS
   ArgsOf <- MCArgs
   InitHeaps <- MCInit
   MaxDepth = 1
-  Acts = {"GeoProject"}
+  Acts = {"GeoProject", "GeoProjectOn"}
   MaxP = 1
   MaxExtra = 1
   MemoN = 2
